@@ -253,7 +253,12 @@ func XOR(a, b SortedInts) SortedInts {
 //Complement returns a new SortedInts containing the elements in {0,..., n-1} but not a.
 //a is not modified.
 func Complement(n int, a SortedInts) SortedInts {
-	b := make([]int, 0, n-len(a))
+	size := n - len(a)
+	if size < 0 {
+		//This can only happen if a contains elements outside of {0,..., n-1}.
+		size = 0
+	}
+	b := make([]int, 0, size)
 	aIndex := 0
 	i := 0
 	for i < n && aIndex < len(a) {
